@@ -101,6 +101,9 @@ class Env(object):
                 return self.ME.futures.f_return(v)
             if self.kind == "foreign_future":
                 return ForeignFuture(self.ME.futures.f_return(v))
+            if self.kind == "future_of_future":
+                # fn hands back a future whose value is itself a future (e.g. a job handle): one level is flattened
+                return self.ME.futures.f_return(self.ME.futures.f_return(v))
             return v
         raise (UserErrorA if step == "A" else UserErrorB)("call%d" % i)
 
@@ -131,6 +134,18 @@ class Env(object):
                     self.calls += 1
                     return env.core(*a, **kw)
             return Wrapper()
+        if self.kind == "falsy_object":
+            env = self
+
+            class EmptyPipeline(object):
+                """a callable object whose truth value is False"""
+
+                def __len__(self):
+                    return 0
+
+                def __call__(self, *a, **kw):
+                    return env.core(*a, **kw)
+            return EmptyPipeline()
         if self.kind == "rebound":
             # a callable that is itself the bound callable of another executor (its result is a future)
             inner = self.ctx.own(self.ME.Executors.sync(name="inner"))
@@ -262,7 +277,8 @@ def run_diff(case, res):
     for it in range(case["n"]):
         chain = gen_chain(rng)
         base = rng.choice(["sync", "sync", "pool"])
-        kind = rng.choice(["function", "partial", "object", "future", "object_attrs", "rebound", "foreign_future"])
+        kind = rng.choice(["function", "partial", "object", "future", "object_attrs", "rebound", "foreign_future", "falsy_object",
+                           "future_of_future"])
         script = [rng.choice(["A", "B"]) for _ in range(rng.choice([0, 0, 1, 2]))] + [rng.choice(["ret", "ret", "ret", "A"])]
         args = tuple(rng.choice([1, "s", None, (2, 3)]) for _ in range(rng.randint(0, 3)))
         kwargs = {k: rng.randint(0, 9) for k in rng.sample(["x", "y"], rng.randint(0, 2))}
@@ -273,7 +289,7 @@ def run_diff(case, res):
         ctx = Ctx()
         try:
             ref_form = "submit"
-            if kind in ("future", "foreign_future"):
+            if kind in ("future", "foreign_future", "future_of_future"):
                 # fn returns a future: compare flat_bind with bind + flat_map(identity), and both with submit + flat_map first
                 forms = ["flat_bind", "bind_flat_identity"]
                 ref = run_form(ctx, "submit", base, [{"t": "flat_map_identity", "k": -1}] + chain, script, kind, args, kwargs) \
@@ -285,7 +301,15 @@ def run_diff(case, res):
             for form in forms:
                 if form == ref_form:
                     continue
-                got = run_form(ctx, form, base, chain, script, kind, args, kwargs, split=split)
+                try:
+                    got = run_form(ctx, form, base, chain, script, kind, args, kwargs, split=split)
+                except (instr.DeadlockBroken, instr.CaseAbort):
+                    raise
+                except Exception as e:
+                    res.execs += 1
+                    res.violation("bind-differs/raised/%s/%s" % (form, type(e).__name__),
+                                  "%s: building / calling the %s form raised %r (the %s form gives %s)" % (desc, form, e, ref_form, ref["outcome"]))
+                    continue
                 res.execs += 1
                 if got["outcome"] != ref["outcome"]:
                     res.violation("bind-differs/outcome/%s" % form, "%s: %s form gives %s, %s form gives %s"
@@ -297,6 +321,10 @@ def run_diff(case, res):
                     res.violation("bind-differs/layer-functions/%s" % form, "%s: layer functions called %s vs %s" % (desc, ref["layer_calls"], got["layer_calls"]))
                 if kind == "future" and got["outcome"][0] == "nested-future":
                     res.violation("flat_bind-nested-future", "%s: %s returned a nested future" % (desc, form))
+                if kind == "future_of_future" and not chain and script[-1] == "ret" and not any(st != "ret" for st in script) \
+                        and got["outcome"][0] != "nested-future":
+                    res.violation("flat_bind-flattened-twice", "%s: fn's future resolves to a future; %s must give that future (one level "
+                                  "flattened), got %s" % (desc, form, got["outcome"]))
                 res.key(desc, form)
             res.sample({"chain": [L["t"] for L in chain], "base": base, "callable": kind, "script": script, "reference_outcome": repr(ref["outcome"])[:100]}, limit=1)
             check_common(res)
